@@ -81,9 +81,20 @@ def sweep_words(task):
     return [g]
 
 
-def random_words(rnd, n):
-    """half structured (patterns of known families), half uniform; both instruction sets"""
+def class_word_list(seed, per_class):
+    """words for every encoding class known from the repository's tests (see testwords.py)"""
+    from . import testwords
+    g = C.Group('classwords')
+    return testwords.class_words(random.Random(seed), per_class, g.arm)
+
+
+def random_words(rnd, n, classes=None):
+    """a third per-class words (if given), the rest structured patterns and uniform words; both instruction sets"""
     out = []
+    if classes:
+        k = min(len(classes), n // 3)
+        out = rnd.sample(classes, k)
+        n -= k
     pats = G.ARM_DP + G.ARM_BR
     for _ in range(n):
         r = rnd.random()
